@@ -69,6 +69,9 @@ func c06Profile(tier string) *eng.Profile {
 		up(core.Call{F: "SMoveByOneBucket", B: bS, K: "k", K2: "j", V: "n"}),
 		up(core.Call{F: "SMoveByOneBucket", B: bS, K: "k", K2: "j", V: "zz"}),
 		up(core.Call{F: "SMoveByTwoBuckets", B: bS, K: "k", B2: bT, K2: "k", V: "m"}),
+		up(core.Call{F: "SMoveByOneBucket", B: bS, K: "k", K2: "k", V: "m"}),
+		up(core.Call{F: "SMoveByTwoBuckets", B: bS, K: "k", B2: bS, K2: "k", V: "n"}),
+		up(core.Call{F: "SMoveByTwoBuckets", B: bT, K: "k", B2: bS, K2: "k", V: "o"}),
 		{Kind: "begin-rollback", Calls: []core.Call{{F: "SAdd", B: bS, K: "k", Vs: []string{"r"}}, {F: "SMoveByOneBucket", B: bS, K: "k", K2: "j", V: "m"}}, IgnoreErr: true},
 		{Kind: "reopen"},
 	}
